@@ -187,8 +187,13 @@ class Tracer:
              "width": width_of(samples.x), "ns": ns_of(samples.x), "inker": self.in_kernel}
         if self.file_path is not None:
             e["file"] = read_file_state(self.file_path, self.ids)
+            smp = getattr(getattr(self, "aspire", None), "_sampler", None)
+            lb = getattr(smp, "_last_checkpoint_bytes", None)
+            e["file"]["last_bytes"] = self.ids.of_bytes(lb) if lb else 0
         self.ev.append(e)
+        e["faulted"] = False
         if self.fault_k is not None and self.fault_on == "like" and self.k == self.fault_k:
+            e["faulted"] = True
             raise InjectedFault(f"likelihood call {self.k}")
         val = self.prob.ll_np(x)
         if self.recipe:
@@ -257,7 +262,12 @@ class LoggingRNG:
         self.ncalls += 1
         return self._g.random(*a, **k)
 
+    def __deepcopy__(self, memo):
+        return self
+
     def __getattr__(self, name):
+        if name.startswith("__") or name == "_g":
+            raise AttributeError(name)
         return getattr(self._g, name)
 
 
@@ -534,6 +544,95 @@ def run_smc(cfg: dict, ids: IdTable | None = None, resume_from=None, role="singl
             "orng_created": len(orng_stub.CREATED), "resumed": resume_from is not None}
 
 
+def run_aspire(cfg: dict, ids: IdTable | None = None, role="single", resume_file=None,
+               prefit=True) -> dict:
+    """One real run through the top-level API: Aspire(...).fit(...).sample_posterior(sampler=...,
+    checkpoint_path=...) with the VerifFlow back-end (entry point), or, if `resume_file` is given,
+    Aspire.resume_from_file(file).sample_posterior(<same arguments>).  Checkpoints are written by
+    the library's own file callback; the file is read back at every likelihood call."""
+    from aspire import Aspire
+    from aspire.samples import Samples
+    c = dict(DEFAULT)
+    c.update(cfg)
+    ids = ids or IdTable()
+    xp = get_xp(c["ns"])
+    prob = Problem(c["dims"], c["width"], c["center"])
+    tr = Tracer(prob, ids, fault_k=c["fault_k"], recipe=c["recipe"], file_path=c["path"])
+    tr.fault_on = c["fault_on"]
+    minipcn_stub.reset(); emcee_stub.reset()
+    minipcn_stub.OBSERVER = tr.kernel_event
+    emcee_stub.OBSERVER = tr.kernel_event
+    minipcn_stub.SPLIT = c["split"]
+    minipcn_stub.SCALE = emcee_stub.SCALE = c["scale"]
+    minipcn_stub.MAX_SAMPLE_CALLS = emcee_stub.MAX_SAMPLE_CALLS = c["budget"]
+    orng_stub.CREATED.clear()
+    np.random.seed((c["kseed"] if c["kseed"] is not None else c["seed"]) % (2**31))
+    params = [f"x_{i}" for i in range(c["dims"])]
+    gen = np.random.default_rng(c["seed"])
+    urng = LoggingRNG(gen, tr)
+    status, exc, result, a = "ok", "", None, None
+    pre_sampling_ok = True
+    try:
+        verifflow_mod.OBSERVER = None
+        if resume_file is None:
+            a = Aspire(log_likelihood=tr.log_likelihood, log_prior=tr.log_prior, dims=c["dims"],
+                       parameters=params, prior_bounds={q: [-5.0, 5.0] for q in params},
+                       flow_backend="verifflow", xp=xp, dtype=c["dtype"], seed=c["flow_seed"],
+                       bounded_to_unbounded=False)
+            trng = np.random.default_rng(c["flow_seed"])
+            train = trng.normal(0.3, 1.5, size=(64, c["dims"]))
+            a.fit(Samples(train, xp=xp, dtype=c["dtype"]))
+        else:
+            a = Aspire.resume_from_file(resume_file, log_likelihood=tr.log_likelihood,
+                                        log_prior=tr.log_prior)
+        tr.flow = a.flow
+        verifflow_mod.OBSERVER = tr.flow_event
+        kw = dict(n_samples=c["N"], sampler={"minipcn_smc": "smc", "emcee_smc": "emcee_smc"}[c["sampler"]],
+                  adaptive=c["adaptive"], target_efficiency=c["target"],
+                  target_efficiency_rate=c["rate"],
+                  preconditioning=None if c["precond"] == "default" else c["precond"])
+        if c["sampler"] == "minipcn_smc":
+            kw["rng"] = urng
+            kw["sampler_kwargs"] = {"n_steps": c["mcmc_steps"]}
+            for k_cfg, k_arg in (("min_step", "min_step"), ("max_n_steps", "max_n_steps")):
+                if c[k_cfg] is not None:
+                    kw[k_arg] = c[k_cfg]
+        else:
+            kw["sampler_kwargs"] = {"nsteps": c["mcmc_steps"], "progress": False}
+        if c["n_steps"] is not None:
+            kw["n_steps"] = c["n_steps"]
+        if c["n_final"] is not None:
+            kw["n_final_samples"] = c["n_final"]
+        if c["path"] is not None:
+            kw["checkpoint_path"] = c["path"]
+            if c["every"] is not None:
+                kw["checkpoint_every"] = c["every"]
+        tr.aspire = a
+        result = a.sample_posterior(**kw)
+    except InjectedFault as ex:
+        status, exc = "fault", str(ex)
+    except (minipcn_stub.KernelBudgetExceeded, emcee_stub.KernelBudgetExceeded):
+        status = "truncated"
+    except Exception as ex:
+        status, exc = "raised", f"{type(ex).__name__}: {ex}"
+    finally:
+        minipcn_stub.OBSERVER = None
+        emcee_stub.OBSERVER = None
+        verifflow_mod.OBSERVER = None
+    sampler = getattr(a, "_sampler", None) if a is not None else None
+    if c["path"] is not None:
+        fs = read_file_state(c["path"], ids)
+        lb = getattr(sampler, "_last_checkpoint_bytes", None) if sampler is not None else None
+        fs["last_bytes"] = ids.of_bytes(lb) if lb else 0
+        tr.ev.append({"t": "filecheck", "file": fs, "end": True, "status": status})
+    if sampler is not None and not isinstance(getattr(sampler, "rng", None), LoggingRNG):
+        pass
+    return {"cfg": c, "role": role, "status": status, "exc": exc, "tracer": tr, "sampler": sampler,
+            "result": result, "urng": urng, "flow": tr.flow, "prob": prob, "ids": ids, "aspire": a,
+            "orng_created": len(orng_stub.CREATED), "resumed": resume_file is not None,
+            "via": "aspire"}
+
+
 # --------------------------------------------------------------------------
 # Projection of a group of runs -> JSON for TLC
 # --------------------------------------------------------------------------
@@ -575,7 +674,7 @@ def project_group(gid: str, runs: list[dict], kind="smc_group") -> dict:
         "has_path": c["path"] is not None,
         "precond": c["precond"],
         "rng_route": c["rng_route"] if c["sampler"] == "minipcn_smc" else "none",
-        "expect_cfg": bool(c.get("expect_cfg", False)),
+        "expect_cfg": bool(runs[0].get("via") == "aspire"),
     }
     return {"id": gid, "kind": kind, "cfg": cfg, "zero": rank[0.0], "one": rank[1.0],
             "runs": out_runs}
@@ -601,6 +700,7 @@ def _project_run(r, rank) -> dict:
     betas = [float(b) for b in (H.beta if H is not None else [])]
 
     evs = []
+    tail = []
     last_kinit_rng = None
     rs = r.get("restore_state")
     if rs is not None:
@@ -615,9 +715,9 @@ def _project_run(r, rank) -> dict:
         t = e["t"]
         if t in ("prior", "like", "draw", "logq", "kend"):
             q = {k: v for k, v in e.items() if not k.startswith("_") and k != "file"}
+            if "file" in e:   # the file was read when the call started, before its effects
+                evs.append({"t": "file", **_file_proj(e["file"]), "end": False, "run_status": ""})
             evs.append(q)
-            if "file" in e:
-                evs.append({"t": "file", **_file_proj(e["file"])})
         elif t == "kinit":
             last_kinit_rng = e["_rng"]
             evs.append({"t": "kinit", "rng_user": e["_rng"] is urng})
@@ -629,11 +729,15 @@ def _project_run(r, rank) -> dict:
         elif t == "ckpt":
             evs.append(_project_ckpt(e, rank, prob, flow, ids, 32 if c["dtype"] == "float32" else 64))
             if "file" in e:
-                evs.append({"t": "file", **_file_proj(e["file"])})
+                evs.append({"t": "file", **_file_proj(e["file"]), "end": False, "run_status": ""})
         elif t == "filecheck":
-            evs.append({"t": "file", **_file_proj(e["file"])})
+            (tail if e.get("end") else evs).append(
+                {"t": "file", **_file_proj(e["file"]), "end": bool(e.get("end", False)),
+                 "run_status": e.get("status", "")})
     out = {"role": r["role"], "status": r["status"], "exc": r["exc"][:200], "ev": evs,
-           "rcfg": {"every": c["every"] or 0, "n_final": c["n_final"] or 0,
+           "rcfg": {"every": (c["every"] or (1 if r.get("via") == "aspire" and c["path"] else 0)),
+                    "ckpt_events": r.get("via") != "aspire",
+                    "n_final": c["n_final"] or 0,
                     "max_n_steps": c["max_n_steps"] or 0, "has_path": c["path"] is not None},
            "resumed": bool(r["resumed"]), "orng_created": int(r["orng_created"]),
            "rng_calls": int(urng.ncalls)}
@@ -643,11 +747,12 @@ def _project_run(r, rank) -> dict:
         # still report the schedule seen so far (progress monitor)
         evs.append({"t": "partial", "betas": [rank[b] for b in betas],
                     "iterations": len(betas)})
+    evs.extend(tail)
     return out
 
 
 def _file_proj(f):
-    return {"exists": bool(f["exists"]), "has_cfg": bool(f["has_cfg"]), "has_flow": bool(f["has_flow"]),
+    return {"last_bytes": int(f.get("last_bytes", 0)), "exists": bool(f["exists"]), "has_cfg": bool(f["has_cfg"]), "has_flow": bool(f["has_flow"]),
             "blob": int(f["blob"]), "blob_iter": int(f["blob_iter"]), "cfg_sampler": f["cfg_sampler"],
             "loadable": bool(f["loadable"])}
 
